@@ -1035,6 +1035,11 @@ def _run_scenario(sc):
                     k['session_class'] = Session
                 return orig_connect(*a, **k)
             ws.connect = logged_connect
+            if sc.get('exit_event') == 'default':
+                # persist() creates its own threading.Event: the shim namespace hands it the scripted event
+                # (nobody can set the real one; the script's exit_at then stands for the consumer dropping the iterator)
+                P.threading = types.SimpleNamespace(Event=lambda: ExitEvent(world))
+                return P.persist(ws, **pk)
             return P.persist(ws, exit_event=ExitEvent(world), **pk)
         return ws.connect(session_class=Session, **ck)
 
